@@ -269,7 +269,7 @@ theorem call1_in {s s' : AState ℚ ℚ} {inp : Array ℚ} {outLen : ℕ} {out :
     a1, by rw [a2]; rfl, by rw [a2]; rfl, by rw [a2]; rfl⟩
   unfold chanOut
   rw [e1]
-  simp
+  simp only [Array.toList_map]
   rfl
 
 /-- fixed-output kinds -/
@@ -288,7 +288,8 @@ theorem call1_out {s s' : AState ℚ ℚ} {inp : Array ℚ} {outLen : ℕ} {out 
   refine ⟨r1, r2, r3, b1, b3, a3, ?_, e2⟩
   unfold chanOut
   rw [e1]
-  simp
+  simp only [Array.toList_map]
+  rfl
 
 /-! ## D. the buffer invariant: fresh state, one call, setters -/
 
@@ -339,29 +340,49 @@ theorem bufOK_process {s s' : AState ℚ ℚ} {inp : Array ℚ} {outLen : ℕ} {
     rw [cf.fill, hfr.chunk]
     simp [AState.minIn, hk, AKind.isFixedIn]
 
+theorem BufOK.of_eq {s s' : AState ℚ ℚ} {X : List ℚ} (H : BufOK s X) (hb : s'.buf = s.buf)
+    (hL : s'.L = s.L) (hf : s'.fill = s.fill) (hc : s'.kind = .fastIn → s'.fill = s'.chunk) :
+    BufOK s' X :=
+  ⟨by rw [hb]; exact H.size1, by rw [hb, hL, hf]; exact H.len, by rw [hb, hL, hf]; exact H.val, hc⟩
+
+theorem setChunk_fields' (s : AState ℚ ℚ) (n : ℕ) :
+    (s.setChunk n).1.buf = s.buf ∧ (s.setChunk n).1.L = s.L ∧ (s.setChunk n).1.fill = s.fill ∧
+    (s.setChunk n).1.kind = s.kind ∧ (s.kind = .fastIn → (s.setChunk n).1.chunk = s.chunk) := by
+  unfold AState.setChunk
+  cases hk : s.kind <;> simp only [hk] <;> (try split) <;> simp [hk]
+
+theorem setRatio_fields' (s : AState ℚ ℚ) (new : ℚ) (ramp : Bool) :
+    (s.setRatio new ramp).1.buf = s.buf ∧ (s.setRatio new ramp).1.L = s.L ∧
+    (s.setRatio new ramp).1.fill = s.fill ∧ (s.setRatio new ramp).1.kind = s.kind ∧
+    (s.setRatio new ramp).1.chunk = s.chunk := by
+  unfold AState.setRatio
+  split
+  · cases hk : s.kind <;> simp
+  · simp
+
 /-- `set_chunk_size` (accepted or not) does not touch the buffer or `fill` -/
 theorem bufOK_setChunk {s : AState ℚ ℚ} {X : List ℚ} (H : BufOK s X) (n : ℕ) :
     BufOK (s.setChunk n).1 X := by
-  unfold AState.setChunk
-  split
-  · exact H
-  · exact H
-  · rename_i hk
-    split
-    · exact H
-    · exact ⟨H.size1, H.len, H.val, fun h => by simp [hk] at h⟩
-  · rename_i hk
-    split
-    · exact H
-    · exact ⟨H.size1, H.len, H.val, fun h => by simp [hk] at h⟩
+  obtain ⟨a, b, c, d, e⟩ := setChunk_fields' s n
+  refine H.of_eq a b c (fun hk => ?_)
+  rw [d] at hk
+  rw [c, e hk]; exact H.fastIn_fill hk
 
 /-- `set_resample_ratio` (accepted or not) does not touch the buffer, `fill` or `chunk` -/
 theorem bufOK_setRatio {s : AState ℚ ℚ} {X : List ℚ} (H : BufOK s X) (new : ℚ) (ramp : Bool) :
     BufOK (s.setRatio new ramp).1 X := by
-  unfold AState.setRatio
-  split
-  · split <;> exact ⟨H.size1, H.len, H.val, H.fastIn_fill⟩
-  · exact H
+  obtain ⟨a, b, c, d, e⟩ := setRatio_fields' s new ramp
+  refine H.of_eq a b c (fun hk => ?_)
+  rw [d] at hk
+  rw [c, e]; exact H.fastIn_fill hk
+
+theorem replicate_getD_zero (n k : ℕ) : (Array.replicate n (0 : ℚ)).getD k 0 = 0 := by
+  rw [Array.getD_eq_getD_getElem?, Array.getElem?_replicate]
+  split <;> rfl
+
+theorem zeroBuf_getD (len : ℕ) :
+    (zeroBuf (ρ := ℚ) (σ := ℚ) 1 len).getD 0 #[] = Array.replicate len (0 : ℚ) := by
+  simp [zeroBuf]
 
 /-- **1(a)** a fresh single-channel resampler holds the empty stream (all zeros) -/
 theorem bufOK_init {kind : AKind} {ratio maxRel : ℚ} {deg : Degree} {sint : SincInterp}
@@ -382,18 +403,22 @@ theorem bufOK_init {kind : AKind} {ratio maxRel : ℚ} {deg : Degree} {sint : Si
         · simp only [Except.ok.injEq] at h
           subst h
           refine ⟨by simp [zeroBuf], ?_, ?_, fun _ => rfl⟩
-          · simp [zeroBuf]; omega
-          · intro k _; simp [zeroBuf]
+          · simp only [zeroBuf_getD, Array.size_replicate]; omega
+          · intro k _
+            simp only [zeroBuf_getD, replicate_getD_zero, Xz_nil]
         · simp only [Except.ok.injEq] at h
           subst h
           refine ⟨by simp [zeroBuf], ?_, ?_, fun hk => ?_⟩
-          · simp only [zeroBuf, bufLenOut, one_eq, ofNat_eq]
-            simp
-            sorry
+          · simp only [zeroBuf_getD, Array.size_replicate, bufLenOut, one_eq, ofNat_eq]
+            generalize neededInit chunk ratio (if kind.isSinc = true then ip.len else Fast.polyLen) = N
+            have hN : (0 : ℚ) ≤ N := Nat.cast_nonneg N
+            have hx : (N : ℚ) ≤ (maxRel + 1) * N := by nlinarith
+            rw [toNat_of_nonneg (le_trans hN hx)]
+            have : (N : ℤ) ≤ ⌊(maxRel + 1) * (N : ℚ)⌋ := by
+              rw [Int.le_floor]; exact_mod_cast hx
+            omega
           · intro k _
-            simp only [zeroBuf, Xz_nil, Array.getD_eq_getD_getElem?, Array.getElem?_replicate]
-            simp
-            split <;> rfl
+            simp only [zeroBuf_getD, replicate_getD_zero, Xz_nil]
           · rename_i hfi
             simp only at hk
             subst hk
